@@ -134,20 +134,44 @@ Definition stage_of (kinds : list nat) (g : tid) : nat := nth g kinds stOther.
     observed; it is inferred when a goroutine [g] touches a buffer that the trace
     so far gives to [g'] <> [g] and the stage of [g'] feeds the stage of [g]: the
     pair [EEnq t g' q; EDeq t g q] (q := g: every queue has one consumer) is
-    inserted in front of the event.  Anything else is left as it is and the
-    acceptor rejects it. *)
+    inserted in front of the event (through an anonymous processor where the
+    pipeline has a stage in between, see [via]).  Anything else is left as it is
+    and the acceptor rejects it. *)
 Definition ev_tok (e : event) : tok :=
   match e with EGet t _ | EPut t _ | EEnq t _ _ | EDeq t _ _ | EUse t _ | ELeak t _ => t end.
 Definition ev_tid (e : event) : tid :=
   match e with EGet _ g | EPut _ g | EEnq _ g _ | EDeq _ g _ | EUse _ g | ELeak _ g => g end.
+
+(** Stages a buffer passes through unseen between stage [a] and stage [b]: a
+    processor that forwards a packet (or sends it to the slow path) calls neither
+    Get nor Put. [None]: [b] cannot receive buffers from [a]. *)
+Definition via (a b : nat) : option (list nat) :=
+  if flow a b then Some []
+  else match a, b with
+       | 2, 6 => Some [stProc]       (* receive loop -> processor -> egress queue *)
+       | 2, 4 => Some [stProc]       (* receive loop -> processor -> slow-path queue *)
+       | _, _ => None
+       end.
+
+(** Goroutine id standing for "some goroutine of stage s" in inferred hand-offs. *)
+Definition anon (s : nat) : tid := 240 + s.
+
+Fixpoint chain (t : tok) (from : tid) (mid : list nat) (to : tid) : list event :=
+  match mid with
+  | [] => [EEnq t from to; EDeq t to to]
+  | s :: mid' => EEnq t from (anon s) :: EDeq t (anon s) (anon s) :: chain t (anon s) mid' to
+  end.
 
 Definition handoff (kinds : list nat) (m : list loc) (e : event) : list event :=
   match e with
   | EPut t g | EUse t g =>
     match nth_error m t with
     | Some (Held g') =>
-      if negb (Nat.eqb g' g) && flow (stage_of kinds g') (stage_of kinds g)
-      then [EEnq t g' g; EDeq t g g] else []
+      if Nat.eqb g' g then []
+      else match via (stage_of kinds g') (stage_of kinds g) with
+           | Some mid => chain t g' mid g
+           | None => []
+           end
     | _ => []
     end
   | _ => []
@@ -415,23 +439,25 @@ Definition owned (st : state) : list tok :=
 (* ------------------------------------------------------------------ *)
 (** * The correspondence case: one recorded run of the real router *)
 
-(** [n] pool size; [kinds] stage of each goroutine index; [evs] encoded raw events
-    [kind + 4 * (g + 256 * (tok + 1))], kind 0 = Get, 1 = Put, 2 = Use;
-    [fin] where each buffer was found after Shutdown: 0 pool, 1 a queue, 2 nowhere,
-    3 more than once. *)
-Inductive case := CTrace (n : N) (kinds : list N) (evs : list N) (fin : list N).
+(** [n] pool size; [kinds] stage of each goroutine index; [evs] the raw events
+    (goroutine index, buffer index; buffer index [n] = not a pool buffer);
+    [notpool] where the buffers that were not in the pool after Shutdown were found:
+    1 a queue, 2 nowhere, 3 more than once. *)
+Inductive rawev := G (g : tid) (t : tok) | P (g : tid) (t : tok) | U (g : tid) (t : tok).
+Inductive case := CTrace (n : nat) (kinds : list nat) (evs : list rawev) (notpool : list (tok * nat)).
 
-Definition decode (n : nat) (e : N) : event :=
-  let kind := N.modulo e 4 in
-  let r := N.div e 4 in
-  let g := N.to_nat (N.modulo r 256) in
-  let tc := N.to_nat (N.div r 256) in
-  let t := match tc with O => n | S t' => t' end in    (* 0: not a pool buffer -> out of range *)
-  match kind with
-  | 0%N => EGet t g
-  | 1%N => EPut t g
-  | _ => EUse t g
+Definition decode (e : rawev) : event :=
+  match e with G g t => EGet t g | P g t => EPut t g | U g t => EUse t g end.
+
+Fixpoint lookup (t : tok) (l : list (tok * nat)) : nat :=
+  match l with
+  | [] => 0
+  | (t', c) :: l' => if Nat.eqb t' t then c else lookup t l'
   end.
+
+(** Final location code of every buffer. *)
+Definition final_of (n : nat) (notpool : list (tok * nat)) : list nat :=
+  map (fun t => lookup t notpool) (seq 0 n).
 
 Definition loc_eqb (a b : loc) : bool :=
   match a, b with
@@ -445,30 +471,28 @@ Definition loc_eqb (a b : loc) : bool :=
 Definition producer (s : nat) : bool := flow s stProc || flow s stSlow || flow s stSend.
 
 (** Model's prediction of where a buffer is at the end vs where it was found. *)
-Definition final_agrees (kinds : list nat) (m : list loc) (fin : list N) : bool :=
+Definition final_agrees (kinds : list nat) (m : list loc) (fin : list nat) : bool :=
   Nat.eqb (length m) (length fin) &&
   forallb (fun p =>
     match fst p, snd p with
-    | InPool, 0%N => true
-    | Held g, 1%N => producer (stage_of kinds g)   (* sent on a channel, not yet received *)
+    | InPool, 0 => true
+    | Held g, 1 => producer (stage_of kinds g)   (* sent on a channel, not yet received *)
     | _, _ => false
     end) (combine m fin).
 
-Definition all_accounted (n : nat) (fin : list N) : bool :=
-  Nat.eqb (length fin) n && forallb (fun f => N.eqb f 0 || N.eqb f 1) fin.
+Definition all_accounted (n : nat) (notpool : list (tok * nat)) : bool :=
+  forallb (fun p => (fst p <? n) && Nat.eqb (snd p) 1) notpool.
 
 Definition check (c : case) : N :=
   match c with
-  | CTrace n kinds evs fin =>
-    let n' := N.to_nat n in
-    let ks := map N.to_nat kinds in
-    let raw := map (decode n') evs in
-    let tr := complete ks (minit n') raw in
-    match mrun (minit n') tr with
+  | CTrace n kinds evs notpool =>
+    let raw := map decode evs in
+    let tr := complete kinds (minit n) raw in
+    match mrun (minit n) tr with
     | None => Check.verdict false false
     | Some m =>
-      Check.verdict (forallb (role_ok ks) raw && final_agrees ks m fin)
-                    (all_accounted n' fin)
+      Check.verdict (forallb (role_ok kinds) raw && final_agrees kinds m (final_of n notpool))
+                    (all_accounted n notpool)
     end
   end.
 
@@ -487,18 +511,14 @@ Definition ev_code (e : event) : N :=
 
 Definition diag (c : case) : list (list N) :=
   match c with
-  | CTrace n kinds evs fin =>
-    let n' := N.to_nat n in
-    let ks := map N.to_nat kinds in
-    let raw := map (decode n') evs in
-    let tr := complete ks (minit n') raw in
-    match first_reject (minit n') tr 0 with
+  | CTrace n kinds evs notpool =>
+    let raw := map decode evs in
+    let tr := complete kinds (minit n) raw in
+    match first_reject (minit n) tr 0 with
     | Some (i, e) =>
       [[N.of_nat i; ev_code e; N.of_nat (ev_tok e); N.of_nat (ev_tid e);
-        N.of_nat (stage_of ks (ev_tid e))]]
-    | None =>
-      map (fun p => [N.of_nat (fst p); snd p])
-          (filter (fun p => negb (N.eqb (snd p) 0)) (combine (seq 0 (length fin)) fin))
+        N.of_nat (stage_of kinds (ev_tid e))]]
+    | None => map (fun p => [N.of_nat (fst p); N.of_nat (snd p)]) notpool
     end
   end.
 
